@@ -71,6 +71,40 @@ def check_config_passthrough(prop: str, res: Result, repo: Repo):
         res.ok(rule, {"site": bi.where, "why": "the given dict (a copy, minus the popped selector key) is passed on as it is"}, nontrivial="config")
 
 
+def check_settings_kept(prop: str, res: Result, repo: Repo, settings=("timeframe_fill", "candles_lifespan")):
+    """R-CONFIG: the constructors of Hexital and CandleManager keep the gap-filling / lifespan setting they are given on every path
+    (a store placed under an unrelated condition, e.g. `if timeframe:`, silently drops it for the other configurations: the managers
+    built later for the members' own timeframes then run without it)"""
+    from .structure import normal_exit, stmt_paths
+
+    rule = "R-CONFIG"
+    for mod, cls in (("hexital.core.hexital", "Hexital"), ("hexital.core.candle_manager", "CandleManager")):
+        m = repo.method(mod, cls, "__init__")
+        for s_ in settings:
+            if s_ not in m.params:
+                res.errors.append(f"{m.where}: {cls}.__init__ no longer takes `{s_}`")
+                continue
+            n_paths = missing = 0
+            for p_ in stmt_paths(m.node.body):
+                if not normal_exit(p_):
+                    continue
+                n_paths += 1
+                stored = False
+                for item in p_:
+                    if isinstance(item, ast.Assign) and any(isinstance(t, ast.Attribute) and isinstance(t.value, ast.Name) and t.value.id == "self" and t.attr == s_ for t in item.targets):
+                        stored = stored or any(isinstance(n, ast.Name) and n.id == s_ for n in ast.walk(item.value))
+                    elif isinstance(item, ast.AnnAssign) and isinstance(item.target, ast.Attribute) and item.target.attr == s_ and item.value is not None:
+                        stored = stored or any(isinstance(n, ast.Name) and n.id == s_ for n in ast.walk(item.value))
+                if not stored:
+                    missing += 1
+            if n_paths == 0:
+                res.errors.append(f"{m.where}: no path through {cls}.__init__ could be enumerated")
+            elif missing:
+                res.fail(rule, finding(prop, rule, m, m.node, f"{cls}.__init__ keeps the given `{s_}` only on {n_paths - missing} of its {n_paths} paths: for the other configurations the setting is dropped (class default), and every manager built from it later runs without it", construct=f"{cls}.__init__: self.{s_} not stored on every path"))
+            else:
+                res.ok(rule, {"site": m.where, "setting": s_, "stored on": f"all {n_paths} paths"}, nontrivial=f"{cls}.{s_}")
+
+
 # (class, settings) pairs whose exchange leaves the indicator the same: MACD is "shorter EMA minus longer EMA" whichever way round they are given
 SYMMETRIC_SETTINGS = {("MACD", frozenset({"fast_period", "slow_period"}))}
 
